@@ -480,12 +480,16 @@ def rule_collect_reentry(ctx):
                 wrote = True
                 r.paths += 1
                 pre = p.events[:ws[0]]
-                owned = any(e.kind == "cond" and isinstance(e.term, tuple) and e.term[0] == "call" and
-                            norm(e.term[1]) == "std::cell::Cell::get" and _tls_flag(e.term[2][0]) and e.value == 0 for e in pre)
                 reads = [e for e in pre if e.kind == "call" and e.ntarget == "std::cell::Cell::get" and _tls_flag(e.args[0])]
+                clearing = [i for i in ws if const_of(p.events[i].args[1]) != 1]
+                # the flag was found clear by a read made before this function's first write (the test itself may come
+                # after it: `!flag.replace(true)`), and that is known before the first write that can clear it
+                owned = bool(clearing) and any(
+                    e.kind == "cond" and e.value == 0 and any(e.term == rd.result for rd in reads)
+                    for e in p.events[:clearing[0]])
                 last = p.events[ws[-1]].args[1]
                 restored = const_of(last) is None and any(e.result == x for e in reads for x in subterms(last))
-                leaves_set = const_of(last) == 1   # never cleared on this path: can only over-block, F15-safe
+                leaves_set = not clearing   # never cleared on this path: can only over-block, F15-safe
                 if not (owned or restored or leaves_set) and bad is None:
                     bad = p.events[ws[-1]]
             if not wrote:
